@@ -46,7 +46,8 @@ def gen_ops(rng, tier):
 def mutate(rng, b, other):
     b = bytearray(b)
     n = len(b)
-    k = rng.randrange(14)
+    k = rng.randrange(15)
+    if k == 14: k = 13
     def markers():
         return [i for i in range(2, n - 3) if b[i] == 0xFF and b[i + 1] not in (0, 0xFF) and not (0xD0 <= b[i + 1] <= 0xD7)]
     if k == 0:
@@ -108,7 +109,17 @@ def mutate(rng, b, other):
                     j = i + 4 + rng.randrange(max(1, min(L - 2, n - i - 5))); b[j] = rng.choice([0, 1, 0xFF, 16, 17, 0x80, rng.randrange(256)])
                 break
     else:
-        pass
+        # progressive stream with a zero among the ten quantisers that block smoothing divides by, optionally cut after the
+        # first scan so that the AC coefficients are still unknown and smoothing is active
+        ms = markers()
+        dq = [i for i in ms if b[i + 1] == 0xDB]
+        if dq:
+            i = rng.choice(dq)
+            if (b[i + 4] >> 4) == 0 and i + 5 + 10 < n:
+                b[i + 5 + rng.choice([1, 2, 3, 4, 5, 6, 7, 8, 9, 9, 9])] = 0
+        sos = [i for i in ms if b[i + 1] == 0xDA]
+        if len(sos) >= 2 and rng.random() < .7:
+            b = b[:sos[rng.randint(1, min(3, len(sos) - 1))]] + bytearray([0xFF, 0xD9])
     return bytes(b)
 
 
@@ -129,7 +140,7 @@ def stage2(ops, model_lines, res_by_v):
             other = rng.choice(streams)
             m = s if r == 0 else mutate(rng, s, other)
             if rng.random() < .25 and r: m = mutate(rng, m, other)
-            out.append("dfz %d %d %s" % (rng.choice([0, 0, 1, 2, 3, 3, 3]), rng.randrange(1 << 30), m.hex() if m else "-"))
+            out.append("dfz %d %d %s" % (rng.choice([0, 0, 1, 2, 3, 3, 3, 4]), rng.randrange(1 << 30), m.hex() if m else "-"))
     return out, fails
 
 
